@@ -32,6 +32,12 @@ READ_POSITIONS = {
     "condition-of-if": "if ({V} > 0) {{ }} return 1;",
     "condition-of-while": "int t = 0; while (t < {V}) {{ t++; }} return 1;",
     "bound-of-for": "int t; for (t = 0; t < {V}; t++) {{ }} return 1;",
+    "condition-of-do-while": "int t = 0; do {{ t++; }} while (t < {V}); return 1;",
+    "step-of-for": "int t; int u = 0; for (t = 0; t < 2; t = t + 1 + 0 * {V}) {{ u++; }} return 1;",
+    "initialisation-of-for": "int t; for (t = {V} - {V}; t < 2; t++) {{ }} return 1;",
+    "range-of-iteration": "int u = 0; for (t : int[0, 1]) {{ u = u + {V}; }} return 1;",
+    "condition-of-nested-if-in-loop": "int t = 0; while (t < 2) {{ t++; if ({V} > 5) {{ t++; }} }} return 1;",
+    "returned-from-a-branch": "if (1 > 2) {{ return {V}; }} return 1;",
     "argument-of-discarded-call": "fpar({V}); return 1;",
     "condition-of-inline-if-target": "int a; int b; ({V} > 0 ? a : b) = 1; return 1;",
     "assertion": "assert({V} > 0); return 1;",
